@@ -77,7 +77,12 @@ def endpoint_spec(rng, eid, box, kind):
     """returns (text, spec) where spec = ('auto',) | ('loc', locspec) | ('lit', (x, y))"""
     k = rng.random()
     if kind in ("h", "v"):
-        return "#" + eid, ("auto",)
+        if k < 0.75:
+            return "#" + eid, ("auto",)
+        # a literal point as one (or both) of the ends of an h / v connector: which of its coordinates survives is not stated,
+        # that the line is axis-parallel and the control attributes are consumed is
+        x, y = F(rng.randint(-120, 240), 4), F(rng.randint(-120, 240), 4)
+        return "%s %s" % (fmt(x), fmt(y)), ("lit", (x, y))
     if k < 0.35:
         return "#" + eid, ("auto",)
     if k < 0.85:
@@ -97,7 +102,7 @@ def make_case(rng):
     kind = rng.choice(["straight", "straight", "h", "v", "corner", "corner"])
     t1, s1 = endpoint_spec(rng, "a", A, kind)
     t2, s2 = endpoint_spec(rng, "b", B, kind)
-    if s1[0] == "lit" and s2[0] == "lit" and kind != "straight":
+    if s1[0] == "lit" and s2[0] == "lit" and kind == "corner":
         kind = "straight"
     extra = ""
     if kind in ("h", "v"):
@@ -207,7 +212,7 @@ def check_case(ctx, case):
             if not same(pt, want):
                 viol("named-location", "endpoint-not-at-named-location:" + which, "%s is not at the named location" % which, exp=[fmt(want[0]), fmt(want[1])])
                 return
-        if spec[0] == "lit" and not same(pt, spec[1]):
+        if spec[0] == "lit" and kind not in ("h", "v") and not same(pt, spec[1]):
             viol("literal", "literal-altered:" + which, "literal %s coordinate altered" % which, exp=[fmt(spec[1][0]), fmt(spec[1][1])])
             return
     if kind in ("straight", "corner"):
@@ -235,19 +240,19 @@ def check_case(ctx, case):
         if len(pts) != 2 or abs(p[1] - q[1]) > EPS:
             viol("axis-parallel", "h-not-horizontal", "edge-type h connector is not horizontal")
             return
-        if min(abs(p[0] - A.x1), abs(p[0] - A.x2)) > EPS or min(abs(q[0] - B.x1), abs(q[0] - B.x2)) > EPS:
+        if (s1[0] == "auto" and min(abs(p[0] - A.x1), abs(p[0] - A.x2)) > EPS) or (s2[0] == "auto" and min(abs(q[0] - B.x1), abs(q[0] - B.x2)) > EPS):
             viol("edge-membership", "h-endpoints-not-on-left/right-edges", "edge-type h endpoints are not on the left/right edges")
         lo, hi = max(A.y1, B.y1), min(A.y2, B.y2)
-        if lo <= hi and abs(p[1] - (lo + hi) / 2) > EPS:
+        if s1[0] == s2[0] == "auto" and lo <= hi and abs(p[1] - (lo + hi) / 2) > EPS:
             viol("overlap-middle", "h-not-through-middle-of-overlap", "edge-type h line is not through the middle of the vertical overlap", exp=fmt((lo + hi) / 2))
     if kind == "v":
         if len(pts) != 2 or abs(p[0] - q[0]) > EPS:
             viol("axis-parallel", "v-not-vertical", "edge-type v connector is not vertical")
             return
-        if min(abs(p[1] - A.y1), abs(p[1] - A.y2)) > EPS or min(abs(q[1] - B.y1), abs(q[1] - B.y2)) > EPS:
+        if (s1[0] == "auto" and min(abs(p[1] - A.y1), abs(p[1] - A.y2)) > EPS) or (s2[0] == "auto" and min(abs(q[1] - B.y1), abs(q[1] - B.y2)) > EPS):
             viol("edge-membership", "v-endpoints-not-on-top/bottom-edges", "edge-type v endpoints are not on the top/bottom edges")
         lo, hi = max(A.x1, B.x1), min(A.x2, B.x2)
-        if lo <= hi and abs(p[0] - (lo + hi) / 2) > EPS:
+        if s1[0] == s2[0] == "auto" and lo <= hi and abs(p[0] - (lo + hi) / 2) > EPS:
             viol("overlap-middle", "v-not-through-middle-of-overlap", "edge-type v line is not through the middle of the horizontal overlap", exp=fmt((lo + hi) / 2))
     if kind == "corner":
         for a, b in zip(pts, pts[1:]):
